@@ -21,7 +21,15 @@ import (
 	"verif/harness/stats"
 )
 
-func TestMain(m *testing.M) { stats.Main(m) }
+func TestMain(m *testing.M) {
+	// A client that spins on an expired read deadline never lets the virtual clock advance, so
+	// no bound expressed in virtual time can catch it: the connection detects the spin, breaks
+	// it, and it is recorded as a violation of whichever property is being checked.
+	simnet.OnLivelock = func(msg string) {
+		stats.G().Violate("client-spins-on-expired-read-deadline", "the client does not return: "+msg, []byte(msg))
+	}
+	stats.Main(m)
+}
 
 // Revisions of the supported window: both neighbours of every threshold in
 // [54429, 54480], plus a server far above.
@@ -295,6 +303,9 @@ func doBounded(rt *rapid.T, e *env, client *ch.Client, ctx context.Context, q ch
 	}()
 	select {
 	case <-done:
+		if e.conn.Livelocked() {
+			rt.Fatalf("%s: Do spun on an expired read deadline (it would never have returned); broken up by the connection, it returned %v", what, err)
+		}
 		return err
 	case <-time.After(bound):
 		var desc string
